@@ -177,7 +177,7 @@ def calc_cav_dp(asig):
     pga_max = 0
     cav_dp = 0
     points_per_sec = int(round(1 / asig.dt))
-    total_seconds = int(asig.time[-1])
+    total_seconds = (asig.npts - 1) // points_per_sec
     cav_dp_1_series = []
     acc_in_g = asig.values / 9.81
 
